@@ -643,6 +643,12 @@ class Enum:
                 return [(st, OPQ_R if name == 'peek_bit' else (OPAQUE, 'pos'))]
             if name in ('append_length_determinant_chunks', 'read_length_determinant_chunks'):
                 return [(self.tok(st, ('CHUNKSHDR',)), opq)]
+            # a method of the Encoder/Decoder class outside the vocabulary (a derived primitive, possibly one a refactoring
+            # introduced): inlined, with `self` denoting the stream
+            scls = self.stream_class()
+            r = scls.find_method(name) if scls is not None else None
+            if r is not None:
+                return self.inline_fn(r[0], r[1], pos, kws, st, self_is_stream=True)
             self.notes.add('unknown stream method %s' % name)
             return [(self.tok(st, ('UNKNOWN', name)), opq)]
         if recv[0] == SUB:
@@ -717,7 +723,21 @@ class Enum:
             return ('SKIP',)
         return (kind,)
 
-    def inline_fn(self, c, f, pos, kws, st, skip_self=True):
+    def stream_class(self):
+        want = 'Encoder' if self.side == 'enc' else 'Decoder'
+        m = self.cls.mod
+        c = m.classes.get(want)
+        if c is None:
+            r = m.resolve_name(want)
+            c = r if isinstance(r, ClassInfo) else None
+        if c is None:
+            for b in self.cls.mro():
+                c = b.mod.classes.get(want)
+                if c is not None:
+                    break
+        return c
+
+    def inline_fn(self, c, f, pos, kws, st, skip_self=True, self_is_stream=False):
         self.depth += 1
         if self.depth > 8:
             self.depth -= 1
@@ -741,6 +761,8 @@ class Enum:
                 cenv[p] = (CONST, dmap[p].value)
             else:
                 cenv[p] = self.opq
+        if self_is_stream:
+            cenv[f.args.args[0].arg] = (STREAM,)
         if f.args.vararg is not None:
             cenv[f.args.vararg.arg] = self.opq
         for a, d in zip(f.args.kwonlyargs, f.args.kw_defaults):
